@@ -53,8 +53,16 @@ theorem cLeF_eq (x y : TV) : cLeF x y = cCmp .le x y := by simp [cLeF, cCmp, wra
 theorem powerValue2F_eq (S : IntTy) (k : Nat) : powerValue2F S k = powerValueInt S k 2 := by
   simp [powerValue2F, powerValueInt, p2_eq]
 
+theorem cGt_eq_not_le (x y : TV) : cCmp .gt x y = !cCmp .le x y := by
+  simp only [cCmp]
+  by_cases h : (usualArith x.1 y.1).wrap x.2 ≤ (usualArith x.1 y.1).wrap y.2
+  · have : ¬ (usualArith x.1 y.1).wrap x.2 > (usualArith x.1 y.1).wrap y.2 := by omega
+    simp [h, this]
+  · have : (usualArith x.1 y.1).wrap x.2 > (usualArith x.1 y.1).wrap y.2 := by omega
+    simp [h, this]
+
 theorem scale2F_eq (k : Int) (s : TV) : scale2F k s = scaleInt k 2 s := by
-  simp [scale2F, scaleInt, bindS_eq, powerValue2F_eq, cBinF_eq]
+  simp [scale2F, scaleInt, bindS_eq, powerValue2F_eq, cBinF_eq, cLeF_eq, cGt_eq_not_le]
 
 
 /-! ## 2. the compiler-printed coefficient tables equal the ones derived from the header's decimal literals
